@@ -2,6 +2,7 @@ package rules
 
 import (
 	"fmt"
+	"go/token"
 	"go/types"
 	"regexp"
 	"sort"
@@ -411,6 +412,84 @@ func checkVOP3bMembership(c *core.Ctx, t *InstTables) {
 		} else {
 			c.Report(core.Finding{Rule: "R04.19", Pkg: instsPkg, Func: "DecodeTable", Detail: "vop3a-tabled-vop3b:" + name, Pos: c.Position(r.Pos),
 				Msg: fmt.Sprintf("%s (opcode %d) has no scalar destination but is tabled VOP3b: its ABS / OP_SEL bits are decoded as an SDST register", name, r.Opcode)})
+		}
+	}
+}
+
+// R04.22: the register file of the destination follows the instruction.
+var scalarDstMnemonic = regexp.MustCompile(`^v_(cmp|cmpx)_|^v_readlane_b32$|^v_readfirstlane_b32$`)
+
+func checkDstRegisterFile(c *core.Ctx, t *InstTables) {
+	st := c.Rule("R04.22", "the destination of a vector instruction is decoded into the register file the instruction writes: for every VOP1 and VOP3a row, the path decodeVOP1 / decodeVOP3a takes for that opcode (decided per opcode on the SSA form) stores into Inst.Dst an operand built by getOperand (a scalar operand code: SGPR, VCC, EXEC) when the mnemonic is a compare (v_cmp*, v_cmpx*), v_readlane_b32 or v_readfirstlane_b32, and a vector register (NewVRegOperand) otherwise", 300)
+	for _, format := range []string{"VOP1", "VOP3a"} {
+		fn := c.SSAFunc(instsPkg, "Disassembler.decode"+format)
+		if fn == nil {
+			continue
+		}
+		c.MarkAnalysed(fn)
+		isOp := isLoadOfField("Opcode")
+		for _, r := range t.Rows {
+			if r.Format != format {
+				continue
+			}
+			name := strings.TrimSpace(r.Name)
+			blocks := opReach(fn, isOp, r.Opcode)
+			kind := ""
+			for _, b := range blocks {
+				for _, in := range b.Instrs {
+					s, ok := in.(*ssa.Store)
+					if !ok || instFieldOfStore(s) != "Dst" {
+						continue
+					}
+					v := s.Val
+					if ex, ok := v.(*ssa.Extract); ok {
+						v = ex.Tuple
+					}
+					if call, ok := v.(*ssa.Call); ok && call.Call.StaticCallee() != nil {
+						k2 := ""
+						switch call.Call.StaticCallee().Name() {
+						case "getOperand":
+							// getOperand(field + 256) names a vector register as well
+							k2 = "scalar"
+							if len(call.Call.Args) == 1 {
+								arg := call.Call.Args[0]
+								for {
+									if cv, ok := arg.(*ssa.Convert); ok {
+										arg = cv.X
+										continue
+									}
+									break
+								}
+								if bo, ok := arg.(*ssa.BinOp); ok && bo.Op == token.ADD {
+									if kk, ok := core.ConstInt(bo.Y); ok && kk == 256 {
+										k2 = "vector"
+									}
+								}
+							}
+						case "NewVRegOperand":
+							k2 = "vector"
+						}
+						if k2 != "" && kind != "" && kind != k2 {
+							kind = "mixed"
+						} else if k2 != "" {
+							kind = k2
+						}
+					}
+				}
+			}
+			if kind == "" {
+				continue // no store to Inst.Dst is reachable for this opcode
+			}
+			st.Instances++
+			want := "vector"
+			if scalarDstMnemonic.MatchString(baseMnemonic(name)) {
+				want = "scalar"
+			}
+			st.Ob(kind == want)
+			if kind != want {
+				c.Report(core.Finding{Rule: "R04.22", Pkg: instsPkg, Func: "Disassembler.decode" + format, Detail: "dst-register-file:" + format + ":" + name, Pos: c.Position(r.Pos),
+					Msg: fmt.Sprintf("%s (%s opcode %d) writes a %s destination, but decode%s builds a %s operand from the VDST field: `v_readlane_b32 s5, v1, s2` decodes with destination v5", name, format, r.Opcode, want, format, kind)})
+			}
 		}
 	}
 }
